@@ -78,7 +78,18 @@ func (d Dict) Get(key any) any {
 
 // Get_ is comma-ok version of Get.
 func (d Dict) Get_(key any) (value any, ok bool) {
+	d.checkKey(key)
 	return d.m.Get(key)
+}
+
+// checkKey panics if key's type is not allowed to be used as Dict key.
+//
+// The underlying map hashes the key, and so rejects it, only when it is
+// non-empty. Do the check ourselves for the empty dictionary.
+func (d Dict) checkKey(key any) {
+	if d.Len() == 0 {
+		hash(maphash.MakeSeed(), key)
+	}
 }
 
 // Set sets key to be associated with value.
@@ -101,6 +112,7 @@ func (d Dict) Set(key, value any) {
 //
 // Del panics if key's type is not allowed to be used as Dict key.
 func (d Dict) Del(key any) {
+	d.checkKey(key)
 	// see comment in Set about ByteString and container(with ByteString)
 	for {
 		d.m.Delete(key)
